@@ -96,10 +96,18 @@ def finish(ctx, res, level, new, known, replayed, mismatches, coverage_extra, as
     cov.update(coverage_extra)
     runner.write_evidence(ctx, level, cov, COMMON_ASSUMPTIONS + assumptions, new)
     # coverage floor: a run that decides (almost) nothing is neither a pass nor a violation
+    if mismatches:
+        return 2
+    if new:
+        print("SUMMARY property=%s tier=%s violations=%d (see VIOLATION lines)" % (ctx.pid, ctx.tier, new))
+        return 1
     if floors:
         for key, floor in floors.items():
-            if cov.get(key, 0) < floor:
-                print("ERROR coverage-collapsed property=%s %s=%s below floor %s" % (ctx.pid, key, cov.get(key), floor))
+            val = cov.get(key, 0)
+            if key == "drivers_holds":
+                val = cov.get("drivers_holds", 0) + cov.get("drivers_violated", 0)  # decided drivers
+            if val < floor:
+                print("ERROR coverage-collapsed property=%s %s=%s below floor %s" % (ctx.pid, key, val, floor))
                 return 2
     if mismatches:
         return 2
@@ -454,3 +462,47 @@ def plan_C02(ctx):
 
 
 CLAIMED["C02"] = plan_C02
+
+
+def plan_C18(ctx):
+    K = ctx.q(6, 10)
+
+    def build(corp):
+        rng = random.Random(ctx.seed * 31 + 18)
+        n = 0
+        bodies = []
+        exh = gen.exhaustive(3)
+        rng.shuffle(exh)
+        for lst in exh[:ctx.q(100, 137)]:
+            ctr = gen.Ctr()
+            bodies.append(gen.concretize(lst, ctr, []))
+        bodies += gen.sampled(rng, ctx.q(150, 1400), 10)
+        for name, body in directed_c01():
+            if name in ("sw_break_after_yield", "continue_yield_post", "continue_yieldfrom_post", "tagless_switch", "yielding_switch_ends_loop"):
+                continue
+            bodies.append(body)
+        for body in bodies:
+            import copy
+            body = copy.deepcopy(body)
+            body = gen.inject_panic(body, rng, gen.Ctr())
+            helpers = ""
+            if "H3(" in repr(body):
+                helpers += gen.PANIC_HELPERS
+            if "H2(" in repr(body):
+                helpers += C01_HELPERS
+            p = gen.Program("p%04d" % n, body, helpers=helpers, named_result=(n % 2 == 0), family="pan")
+            p.driver = gen.panic_driver(p.name, K)
+            n += 1
+            corp.add(p)
+        return {"programs_with_one_panic_site": n, "panic_sites": ["panic(symbolic int)", "integer division by a symbolic zero", "index out of range (symbolic index)", "nil map store", "nil dereference", "panic(string)", "panic inside a delegate (YieldFrom)"]}
+
+    extra = {
+        "bounds": {"advances_K": K, "loop_bound_n": "[-1,3]", "stop": "the driver stops after the first panic (iterator state after a panic is unspecified)",
+                   "outside": "program shapes not generated; behaviour after a panic; panics raised through Send"},
+        "explanation": "every advance is wrapped in defer/recover; the log records which advance panicked and with which value (run-time panics by class); flat log equality source-under-coroutine-semantics vs compiled code",
+    }
+    return corpus_check(ctx, "c18", build, K, 0, extra, [REF_ASSUMPTION, PROGRAM_DIM, "run-time panics are compared by class (nil-deref, index, div-zero, nil-map, type-assert), explicit panic values structurally"],
+                        floors={"drivers_holds": ctx.q(100, 800)})
+
+
+CLAIMED["C18"] = plan_C18
